@@ -37,7 +37,7 @@ def gen_segs(r, n, allow_dstar_last, lits=LITS):
     return out
 
 
-def gen_class_template(r):
+def gen_class_template(r, allow_short=True):
     """A template of the AIP class (structured, then printed)."""
     lits = LITS if r.random() < 0.85 else LITS + ["", ""]
     npre, nsub, npost = r.choice([0, 0, 1, 1, 2, 3]), r.choice([1, 1, 1, 2, 2, 3, 4]), r.choice([0, 0, 1, 1, 2, 3])
@@ -47,7 +47,7 @@ def gen_class_template(r):
     if r.random() < 0.2:
         (post if post else sub)[-1] = "**"
     key = r.choice(KEYS)
-    if sub == ["*"] and r.random() < 0.4:
+    if sub == ["*"] and allow_short and r.random() < 0.4:
         named = "{" + key + "}"
     else:
         named = "{" + key + "=" + "/".join(sub) + "}"
